@@ -1,6 +1,7 @@
 SPECIFICATION Spec
 CONSTANTS
   NSignals = 3
+  RecheckAfterBusy = TRUE
   BeginBeforeSend = FALSE
 VIEW View
 INVARIANTS AtMostOne SuppressBalanced NeverWedged AnsweredAll
